@@ -432,3 +432,94 @@ func verifHarness_C04_FairOrderStickyTwoWorkers() {
 	m := vfNewModel(nReq, 2, []int{2, 3}, []time.Duration{10 * time.Second}, false)
 	vfDrive(m, picks, 2)
 }
+
+// Three workers, two invocations with three requests each, one stickiness
+// level: picks and completions in engine-chosen order. Besides the reference
+// model's verdict on every pick, a worker may only wait when nothing is queued
+// (a sticky invocation without queued work must not attract the worker).
+func verifHarness_C04_FairOrderThreeWorkers() {
+	rt.PreemptionBound(0)
+	picks := 5
+	if rt.Tier() > 0 {
+		picks = 6
+	}
+	rt.Bound("requests", 6)
+	rt.Bound("picks", picks)
+	rt.Bound("workers", 3)
+	rt.MustCover("fair:child", "fair:direct", "fair:stickiness-turned-a-tie")
+	r := vsNewRig(1)
+	limits := []time.Duration{100 * time.Second}
+	m := &vfModel{r: r, limits: limits, lastStarted: map[string]time.Time{}}
+	p := vsPlatform("os", "linux")
+	rt.Assert(r.bq.RegisterPredeclaredPlatformQueue(digest.EmptyInstanceName, p, limits, 0, 0, []uint32{0}) == nil, "queue registered")
+	for k, keys := range [][]string{{"s"}, {"s"}, {"s"}, {"o"}, {"o"}, {"o"}} {
+		q := &vfReq{keys: keys, hash: r.addAction(0x10+k, p, false), queuedAt: r.clock.now, duration: 5 * time.Second}
+		q.client = r.addClient("", q.hash, 0, scheduler_invocation.Key(keys[0]))
+		m.reqs = append(m.reqs, q)
+		if _, ok := m.lastStarted[vfPath(keys, 1)]; !ok {
+			m.lastStarted[vfPath(keys, 1)] = r.clock.now
+		}
+		if _, ok := m.lastStarted[""]; !ok {
+			m.lastStarted[""] = r.clock.now
+		}
+		r.execute(q.client)
+		rt.Quiesce()
+		r.advance(time.Second)
+	}
+	for k := 0; k < 3; k++ {
+		m.workers = append(m.workers, &vfWorker{w: r.addWorker("", p, 0, string([]byte{'w', byte('0' + k)})), stickyStart: make([]time.Time, 1)})
+	}
+	r.walk()
+	vfDrive(m, picks, 1)
+}
+
+// A task shared by two sibling invocations below g/a runs and completes: the
+// executing-worker counts that feed the fairness score are back to what the
+// operations justify on every level, so g competes fairly with h afterwards.
+func verifHarness_C04_ScoresAfterSharedTask() {
+	rt.PreemptionBound(0)
+	rt.MustCover("shared:completed", "shared:fair-afterwards")
+	r := vsNewRig(1)
+	p := vsPlatform("os", "linux")
+	rt.Assert(r.bq.RegisterPredeclaredPlatformQueue(digest.EmptyInstanceName, p, nil, 0, 0, []uint32{0}) == nil, "queue registered")
+	h := r.addAction(1, p, false)
+	c1 := r.addClient("", h, 0, "g", "a", "x")
+	c2 := r.addClient("", h, 0, "g", "a", "y")
+	w := r.addWorker("", p, 0, "w0")
+	r.execute(c1)
+	rt.Quiesce()
+	r.execute(c2)
+	rt.Quiesce()
+	r.walk()
+	r.sync(w, vsSyncIdle)
+	rt.Quiesce()
+	r.walk()
+	rt.Assert(w.desired != nil, "the worker runs the shared task")
+	r.advance(time.Second)
+	// two fresh requests of equal priority: one below g, one below h
+	cg := r.addClient("", r.addAction(2, p, false), 0, "g", "b")
+	ch := r.addClient("", r.addAction(3, p, false), 0, "h", "b")
+	if rt.NondetBool("h first") {
+		r.execute(ch)
+		rt.Quiesce()
+		r.advance(time.Second)
+		r.execute(cg)
+	} else {
+		r.execute(cg)
+		rt.Quiesce()
+		r.advance(time.Second)
+		r.execute(ch)
+	}
+	rt.Quiesce()
+	r.walk()
+	r.advance(time.Second)
+	r.sync(w, vsSyncCompletedOK)
+	rt.Quiesce()
+	r.walk()
+	rt.Cover("shared:completed")
+	// the walk above has recomputed, for every invocation level, which workers run
+	// its operations; the score inputs of g and h are therefore equal again and the
+	// next task goes to one of the two new requests
+	rt.Assert(w.desired != nil && (w.desired.Hash == ch.hash || w.desired.Hash == cg.hash), "the worker continues with one of the queued requests")
+	rt.Cover("shared:fair-afterwards")
+}
